@@ -8,7 +8,7 @@ from gen import problems
 RULE = ("fault enumeration + correspondence: for each generated problem the clean run's evaluation calls are counted, then "
         "the same operation (resolve / optimize / direct exhaustive / direct random searches) is re-run with an exception "
         "injected at evaluation call k, for k in a sample of the indices (quick) or every index (thorough); naturally "
-        "failing problems are included; every run is recorded and replayed by the Lean solver model (outcome, final "
+        "failing problems and pattern insertions next to frozen segments are included; every run is recorded and replayed by the Lean solver model (outcome, final "
         "sequence, assignment trace, tape); non-trivial = the fault hit after at least one assignment; the oracle "
         "checks length, hard restrictions, sequence_before, re-evaluation and re-solving on the real object")
 TRUSTED = ["harness recorder/replay with fault injection at a chosen evaluation index", "oracle in harness/props/C12.py"]
@@ -36,8 +36,34 @@ def failing_direct_cases(rng, n):
         yield dict(desc=d, op=rng.choice(["exh_resolve", "exh_resolve", "rnd_resolve", "resolve"]), pre_ops=())
 
 
+def insertion_near_frozen_cases(rng, n):
+    """a pattern to insert in a region whose head or tail (centre included) is frozen: the insertion heuristic must
+    not write over the frozen nucleotides, whatever happens afterwards"""
+    from gen import hard
+    for _ in range(n):
+        L = rng.randint(16, 40)
+        seq = "".join(rng.choice("AT") for _ in range(L))
+        a = rng.randint(0, L - 12)
+        b = rng.randint(a + 10, min(L, a + 24))
+        pat = rng.choice(["GGTCTC", "ACGT", "GCGC", "CCGG", "GAATTC"])
+        mid = (a + b) // 2
+        if rng.random() < 0.6:
+            frozen = [rng.randint(max(a + 1, mid - 4), mid), min(L, b + rng.choice([0, 0, 2]))]     # tail, centre included
+        else:
+            frozen = [max(0, a - rng.choice([0, 0, 2])), rng.randint(mid, min(b - 1, mid + 4))]     # head, centre included
+        cons = [dict(kind="keep", location=[frozen[0], frozen[1], 1]),
+                dict(kind="insert", pattern=pat, occurences=1, location=[a, b, rng.choice([1, 0])])]
+        if rng.random() < 0.5:
+            cons.append(problems.rand_soft(rng, seq, allow=["pattern", "gcwin"]))
+        rng.shuffle(cons)
+        yield dict(desc=dict(sequence=seq, constraints=cons, objectives=[], settings=problems.rand_settings(rng),
+                             np_seed=rng.randint(0, 10 ** 6)), op="resolve", pre_ops=())
+
+
 def base_cases(rng, n):
     for c in failing_direct_cases(rng, max(6, n // 5)):
+        yield c
+    for c in insertion_near_frozen_cases(rng, max(6, n // 6)):
         yield c
     for i in range(n):
         op = OPS[i % len(OPS)]
